@@ -313,6 +313,53 @@ func runC20Rest(c *Ctx) {
 					"makeGraph counts an incoming edge without recording it at the parent (or the reverse): "+bad+"; the node's in-degree never reaches zero and DependencySort drops it and its descendants from the rebroadcast list")
 			}
 			c.Floor("C20-R4", "edge-building loops in makeGraph", nCo, 1)
+			// ... and the sort consumes every recorded edge: in the loop over a visited node's out-edges each iteration
+			// decrements the child's in-degree, unless it is already zero (a "seen this child" shortcut leaves a child
+			// that spends two outputs of one parent with a positive in-degree for ever: it and its descendants drop out)
+			if ds := p.Func("wtxmgr", "", "DependencySort"); ds != nil {
+				nDec := 0
+				for _, l := range loopsOf(ds) {
+					if l.Kind == "for" || !strings.Contains(l.Over, "outEdges") {
+						continue
+					}
+					nDec++
+					isDec := func(ins ssa.Instruction) bool {
+						st, ok := ins.(*ssa.Store)
+						if !ok {
+							return false
+						}
+						fa, ok := st.Addr.(*ssa.FieldAddr)
+						if !ok {
+							return false
+						}
+						if _, f := fieldAddrName(fa); f != "inDegree" {
+							return false
+						}
+						bo, ok := st.Val.(*ssa.BinOp)
+						return ok && bo.Op == token.SUB
+					}
+					bad := l.MustPassPerIteration(p, isDec, func(from *ssa.BasicBlock, si int) bool {
+						// the child's in-degree is already zero
+						iff, ok := from.Instrs[len(from.Instrs)-1].(*ssa.If)
+						if !ok {
+							return false
+						}
+						f, okf := p.cmpForm(iff.Cond, si == 0)
+						if !okf || len(f.L.Coef) != 1 {
+							return false
+						}
+						for a := range f.L.Coef {
+							if a == "field:inDegree" && f.Rel == "==" && f.L.Konst == 0 {
+								return true
+							}
+						}
+						return false
+					})
+					c.Check("C20-R4", "sort-consumes-every-edge", l.Header.Instrs[0].Pos(), bad == "",
+						"DependencySort can pass an out-edge of a visited node without decrementing the child's in-degree ("+bad+"): with two edges from one parent the child never becomes ready and is dropped, with its descendants, from the list of transactions to re-offer")
+				}
+				c.Floor("C20-R4", "out-edge loops in DependencySort", nDec, 1)
+			}
 		} else {
 			c.Unresolved("C20-R4", "wtxmgr.makeGraph")
 		}
@@ -404,6 +451,7 @@ func runC20Rest(c *Ctx) {
 		}
 	}
 	checkRescanEventsForwarded(c, "C20-R4")
+	checkBatchHandlerForwardsRescanEvents(c, "C20-R4")
 	checkConflictRemoval(c, "C20-R5")
 	// "stays recorded and is counted once": a coin that is both leased and spent by the recorded transaction is taken
 	// out of the balance exactly once (shared spendability-pass rule)
